@@ -180,7 +180,6 @@ class _ScalarLike:
 class SB(_ScalarLike):
     """symbolic bool"""
     __slots__ = ('n',)
-    __array_priority__ = 1000
 
     def __init__(self, n):
         self.n = n
@@ -253,7 +252,6 @@ def as_sb(x):
 class SC(_ScalarLike):
     """exact complex number re + i im over real terms; im is the constant 0 for reals."""
     __slots__ = ('re', 'im', 'sq', 'ang')
-    __array_priority__ = 1000
 
     def __init__(self, re, im=None, sq=None):
         self.re = re
@@ -355,14 +353,10 @@ class SC(_ScalarLike):
 
     def recip(self):
         if self.isreal:
-            d = self.re
-            if d.op != 'const':
-                CTX.side.append(('div', ir.bnot(ir.rcmp('eq', d, ir.ZERO))))
-            return SC(ir.rdiv(ir.ONE, d))
+            return SC(_recip_real(self.re), None, None)
         d = ir.radd(ir.rmul(self.re, self.re), ir.rmul(self.im, self.im))
-        if d.op != 'const':
-            CTX.side.append(('div', ir.bnot(ir.rcmp('eq', d, ir.ZERO))))
-        return SC(ir.rdiv(self.re, d), ir.rneg(ir.rdiv(self.im, d)))
+        r = _recip_real(d)
+        return SC(ir.rmul(self.re, r), ir.rneg(ir.rmul(self.im, r)))
 
     def __truediv__(self, o):
         o = as_sc(o)
@@ -370,15 +364,15 @@ class SC(_ScalarLike):
             return o
         if o.isreal:
             d = o.re
-            if d.op != 'const':
-                CTX.side.append(('div', ir.bnot(ir.rcmp('eq', d, ir.ZERO))))
-            elif self.sq is not None and self.isreal:
-                return SC(ir.rdiv(self.re, d), None, self.sq * SC(ir.rconst(1 / (d.val * d.val))))
-            elif o.sq is not None and self.isreal and self.sq is not None:
-                pass
+            if d.op == 'const':
+                if self.sq is not None and self.isreal:
+                    return SC(ir.rdiv(self.re, d), None, self.sq * SC(ir.rconst(1 / (d.val * d.val))))
+                return SC(ir.rdiv(self.re, d), ir.rdiv(self.im, d))
+            r = _recip_real(d)
+            res = SC(ir.rmul(self.re, r), ir.rmul(self.im, r))
             if self.sq is not None and o.sq is not None and self.isreal:
-                return SC(ir.rdiv(self.re, d), None, self.sq / o.sq)
-            return SC(ir.rdiv(self.re, d), ir.rdiv(self.im, d))
+                res.sq = self.sq / o.sq
+            return res
         return self * o.recip()
 
     def __rtruediv__(self, o):
@@ -555,6 +549,25 @@ class SC(_ScalarLike):
         return bool(self != 0)
 
 
+def _recip_real(d):
+    """1/d for a real term: constants fold; otherwise a reciprocal variable r with (d != 0 -> r*d == 1).
+    Division by zero is a recorded side condition, its value is left unconstrained (as in SMT-LIB)."""
+    if d.op == 'const':
+        if d.val == 0:
+            raise ZeroDivisionError('symnp: division by exact zero')
+        return ir.rconst(1 / d.val)
+    tab = CTX.__dict__.setdefault('_recips', {})
+    r = tab.get(d.id)
+    if r is None:
+        r = CTX.fresh('recip')
+        nz = ir.bnot(ir.rcmp('eq', d, ir.ZERO))
+        CTX.facts.append(ir.bor(ir.bnot(nz), ir.rcmp('eq', ir.rmul(r, d), ir.ONE)))
+        CTX.side.append(('div', nz))
+        CTX.aux.append((r, 'recip', d))
+        tab[d.id] = r
+    return r
+
+
 def as_sc(x):
     if isinstance(x, SC):
         return x
@@ -597,7 +610,6 @@ class Dual(_ScalarLike):
     conj() conjugates both parts, i.e. the direction parameter is real, which is what is needed for
     d/dt f(x + t e) of non-holomorphic expressions."""
     __slots__ = ('v', 'd')
-    __array_priority__ = 1001
 
     def __init__(self, v, d=None):
         self.v = as_sc(v)
@@ -729,7 +741,6 @@ def _width(dt):
 class BVS(_ScalarLike):
     """NumPy integer/bool element: bit-vector term + dtype (width, signedness, wrap-around)."""
     __slots__ = ('n', 'dtype')
-    __array_priority__ = 1000
 
     def __init__(self, n, dtype):
         self.n = n
@@ -1079,7 +1090,6 @@ def bit_var(name, dtype=np.uint8):
 class F64(_ScalarLike):
     """IEEE-754 binary64 with round-to-nearest-even, for scalar tails."""
     __slots__ = ('n',)
-    __array_priority__ = 1000
     __hash__ = None
 
     def __init__(self, n):
